@@ -37,6 +37,10 @@ def check_C07(tier, seed, res, replay=None):
     res.count_cases(cases, nontrivial_pair)
     res.add_samples([c for c in cases if nontrivial_pair(c)][:3])
     run_events(res, rd, "c07", cases, timeout_ms=10000)
+    import cli_arm
+    pick = [c for c in cases if nontrivial_pair(c)]
+    rng.shuffle(pick)
+    cli_arm.judge(res, rd, "c07", cli_arm.bddincl_events(pick[:4000 if tier == "thorough" else 800], rd), "TraceTA.tla")
 
 
 # ------------------------------------------------------------------------------------- C08
@@ -236,6 +240,15 @@ def check_C08(tier, seed, res, replay=None):
     res.count_cases(cases, nt_bdd)
     res.add_samples([{"enc": c["enc"], "steps": c["steps"][:8]} for c in cases if nt_bdd(c)][:3])
     run_bdd_hist(res, rd, "c08", [c for c in cases if c.get("op") == "bddhist"])
+    # the same operations through the CLI (-r bdd-bu / bdd-td): result automata parsed from its output, language contracts judged by TLC
+    import cli_arm
+    cli_cases = []
+    for i in range(4000 if tier == "thorough" else 800):
+        A, B = small_ta(rng, 0), small_ta(rng, 1)
+        cmd = rng.choice(["union", "isect", "isect", "load-p", "load-s"])
+        cli_cases.append({"id": ["cli", i], "cmd": cmd, "A": A, "B": B})
+    cli_arm.judge(res, rd, "c08bu", cli_arm.ta_op_events(cli_cases[::2], rd, "bdd-bu"), "TraceTA.tla")
+    cli_arm.judge(res, rd, "c08td", cli_arm.ta_op_events(cli_cases[1::2], rd, "bdd-td"), "TraceTA.tla")
     aborted = [c for c in cases if c.get("_abort")]
     if aborted:
         res.report_fails([(None, 0, ["outcome:" + c["_abort"]], {"op": "bddagree", "seed": c["seed"], "count": c["count"], "outcome": c["_abort"]}) for c in aborted],
